@@ -1,16 +1,18 @@
 from common import T_COMMON
 
 CFG = dict(
+    gen=[dict(tool="facts", mode="c15.splatply", out="SplatPlyTable.lean")],
     theorems=["splat_roundtrip_count_order", "splat_record_bits_exact", "splat_position_exact", "splat_position_exact_f32",
               "splat_scale_log_f32_exp", "splat_scale_exact",
               "splat_color_step", "splat_color_step_fdc", "splat_opacity_step", "splat_rotation_step", "splat_rotation_wraps",
-              "sign_extend_24", "spz_fixed_point_value", "spz_decode_refEncode", "spz_lengths"],
+              "sign_extend_24", "spz_fixed_point_value", "spz_decode_refEncode", "spz_lengths", "splatply_table_matches"],
     streams=[dict(name="c15", n=dict(quick=150, thorough=6000),
                   ulps={"c15.splat.readlog": (4, 0.0)})],
     trusted=T_COMMON + ["exp/log: the model treats them as opaque functions; the driver takes exp from a table of the implementation's own math.Exp values and compares log-derived outputs within 4 ulps of libm",
                         "float32 narrowing/widening: Lean Float.toFloat32/Float32.toFloat (IEEE round-to-nearest-even) vs Go float32()/float64()",
                         "encoding/binary little-endian, compress/gzip, io.ReadFull"],
     residue=["float rounding of exp/log/sigmoid (scales 'equal up to float32 rounding of exp/log' is observed by the oracle within 1.2e-7, not proved)",
+             "PLY splat export: splatply_table_matches (regenerated tables: each splat attribute is written as float under exactly the names the default reader loads it from) + oracle c15.holds.splatply; the PLY codec round trip itself is C04's theorem, not re-proved here",
              "the step theorems are over the reals with byte() = integer part; IEEE rounding of c*SH_C0+0.5 etc. is not modelled",
              "opacity step is stated in the stored (sigmoid) domain, not through the logit",
              "point clouds whose index buffer is not the identity (Write uses positions 0..count-1)"],
